@@ -10,6 +10,7 @@ import AdfObdd.Props.C05
 import AdfObdd.MemoCheckProofs
 import AdfObdd.MemoTransparent
 import AdfObdd.CallHistoryMemo
+import AdfObdd.CallHistoryMemoFull
 /-! # C11 — cache transparency, handle stability, determinism across call histories
 
 Every public call only *extends* the node table and adds sound memo entries (`WF` is preserved,
@@ -267,7 +268,8 @@ dependencies of a condition, extra formulas as a list of diagram operations) and
 (`groundedLoop StoreRA`, `completeAll`, `stableAll`, `Cli.stablePre` (= `Drv.stablePreAll`),
 `countAll`, `SM.ngSearch`, `countF` / `paths` / `depsOf`, `runOps`), threading the store.
 `Heuristic::Rand` is not modelled (nor run by the driver): the generator state is outside the model.
-Proofs: `AdfObdd/CallHistoryProofs.lean`, `AdfObdd/CallHistoryMemo.lean`. -/
+Proofs: `AdfObdd/CallHistoryProofs.lean`, `AdfObdd/CallHistoryMemo.lean`, `AdfObdd/SearchLock.lean`
+(+ `CountSearchLock.lean`), `AdfObdd/CallHistoryMemoFull.lean`. -/
 namespace C11
 open CallH
 
@@ -339,9 +341,13 @@ address, no generator state (`Heuristic::Rand` is excluded from `Call`).
 (b) What could make the REAL object nondeterministic or history dependent in its emission order is
 state that is not part of the mathematical answer: the CONTENTS of the memo tables (which depend on
 everything computed before) and the iteration order of hash maps. The first is covered by a
-theorem: `answers_memo_independent_partial` — answers INCLUDING THEIR ORDER, issued handle numbers
-and the node table afterwards are the same on two objects that differ arbitrarily in the contents
-of `ite_cache` / `restrict_cache` (built on `handles_memo_independent`). The second is OUTSIDE the
+theorem: `answers_memo_independent` — for EVERY call kind (both searches included) the answers
+INCLUDING THEIR ORDER, issued handle numbers and the node table afterwards are the same on two
+objects that differ arbitrarily in the contents of `ite_cache` / `restrict_cache` (built on
+`handles_memo_independent` / `MemoT.restrictF_lock`); hence emission order is a function of the node
+table, `n`, `ac` (`answers_depend_on_node_table`), and dropping the memo tables or exporting and
+re-importing the object at any point of a history changes no later answer
+(`answers_memo_dropped_midway`, `answers_reimport_midway`). The second is OUTSIDE the
 model: the model never iterates a hash map (the unique table and the memo tables are only ever
 looked up by key), exactly as `obdd.rs` / `adf.rs` never iterate `HashMap`s when computing answers;
 that the Rust code indeed does not is a fact about the source that only the correspondence run
@@ -352,26 +358,63 @@ witnesses. -/
 theorem same_calls_same_answers (st st' : AdfState) (h h' : List Call) (e1 : st = st') (e2 : h = h') :
     runCalls st h = runCalls st' h' := runCalls_deterministic st st' h h' e1 e2
 
-/-- (b) full statement (every call kind) -/
+/-- (b) full statement (every call kind), one call -/
 def answers_memo_independent_statement : Prop := CallH.memo_independent_statement
 
-/-- (b) proved for histories made of grounded / complete / stable / stable_with_prefilter /
-queries / extra formulas: on two objects equal up to memo CONTENTS (`MemoEq`: both stores well
-formed, same node table, same `n`, `ac`, issued handles) the answer lists are EQUAL — same vectors,
-same order, same handle numbers — and the objects are again equal up to memo contents (same node
-table). Open: the two searches (`count`, `ng`) — the lock-step lemmas for `countLogic` /
-`SM.ngIter` are not written; nothing but `restrictF_lock` and node-table reads is needed. -/
-theorem answers_memo_independent_partial (h : List Call) (st st' : AdfState) (hi : Inv st) (hm : MemoEq st st')
-    (hc : ∀ c ∈ h, ¬ c.isSearch) :
+/-- (b) **one call, every call kind**: grounded / complete / stable / stable_with_prefilter / both
+counting searches / the nogood-learning search in both modes with every modelled heuristic /
+queries / extra formulas. On two objects equal up to memo CONTENTS (`MemoEq`: both stores well
+formed, same node table, same `n`, `ac`, issued handles) the answers are EQUAL — same vectors, same
+ORDER, same handle numbers, for the nogood search also the same interpretations shown to the
+heuristic and the same verdict on the iteration bound — and the objects are again equal up to memo
+contents (same node table). No halting or support hypothesis is needed. -/
+theorem answers_memo_independent_call : answers_memo_independent_statement := CallH.memo_independent
+
+/-- (b) **any history**: the answer lists are equal and the final objects equal up to memo contents -/
+theorem answers_memo_independent (h : List Call) (st st' : AdfState) (hi : Inv st) (hm : MemoEq st st') :
     (runCalls st' h).2 = (runCalls st h).2 ∧ MemoEq (runCalls st h).1 (runCalls st' h).1 :=
-  runCalls_memo_independent_partial h st st' hi hm hc
+  runCalls_memo_independent h st st' hi hm
+
+/-- emission order (and every other part of the answers, the node table and the issued handles
+afterwards) is a function of the node table, `n`, `ac` and the issued handles only: two objects
+satisfying the invariant that agree on these answer every history identically -/
+theorem answers_depend_on_node_table (h : List Call) (st st' : AdfState) (hi : Inv st) (hi' : Inv st')
+    (hnodes : st'.s.nodes = st.s.nodes) (hn : st'.n = st.n) (hac : st'.ac = st.ac) (his : st'.issued = st.issued) :
+    (runCalls st' h).2 = (runCalls st h).2 ∧ (runCalls st' h).1.s.nodes = (runCalls st h).1.s.nodes ∧
+    (runCalls st' h).1.issued = (runCalls st h).1.issued :=
+  CallH.answers_depend_on_node_table h st st' hi hi' hnodes hn hac his
 
 /-- in particular against the memo-dropped copy of any object -/
-theorem answers_memo_dropped_partial (h : List Call) (st : AdfState) (hi : Inv st) (hc : ∀ c ∈ h, ¬ c.isSearch) :
+theorem answers_memo_dropped (h : List Call) (st : AdfState) (hi : Inv st) :
     (runCalls (dropMemo st) h).2 = (runCalls st h).2 ∧
     (runCalls (dropMemo st) h).1.s.nodes = (runCalls st h).1.s.nodes := by
-  have ⟨a, m⟩ := runCalls_memo_independent_partial h st _ hi (memoEq_drop st hi) hc
+  have ⟨a, m⟩ := runCalls_memo_independent h st _ hi (memoEq_drop st hi)
   exact ⟨a, m.lk.nodes⟩
+
+/-- dropping the memo tables after ANY history `h1` changes no answer of ANY continuation `h2`
+(nor its order, nor the node table built) -/
+theorem answers_memo_dropped_midway (st : AdfState) (hi : Inv st) (h1 h2 : List Call) :
+    (runCalls (dropMemo (runCalls st h1).1) h2).2 = (runCalls (runCalls st h1).1 h2).2 ∧
+    (runCalls (dropMemo (runCalls st h1).1) h2).1.s.nodes = (runCalls (runCalls st h1).1 h2).1.s.nodes :=
+  memo_dropped_midway st hi h1 h2
+
+/-- the same for the object whose `Bdd` went through `serde` export and import
+(`Persist.exportB` / `importB` of C14: node table and unique table survive, memo tables skipped) -/
+theorem answers_reimport_midway (st : AdfState) (hi : Inv st) (h1 h2 : List Call) :
+    (runCalls (reimport (runCalls st h1).1) h2).2 = (runCalls (runCalls st h1).1 h2).2 ∧
+    (runCalls (reimport (runCalls st h1).1) h2).1.s.nodes = (runCalls (runCalls st h1).1 h2).1.s.nodes :=
+  CallH.reimport_midway st hi h1 h2
+
+/-- corollaries kept under their old names (search-free histories) -/
+theorem answers_memo_independent_partial (h : List Call) (st st' : AdfState) (hi : Inv st) (hm : MemoEq st st')
+    (_hc : ∀ c ∈ h, ¬ c.isSearch) :
+    (runCalls st' h).2 = (runCalls st h).2 ∧ MemoEq (runCalls st h).1 (runCalls st' h).1 :=
+  answers_memo_independent h st st' hi hm
+
+theorem answers_memo_dropped_partial (h : List Call) (st : AdfState) (hi : Inv st) (_hc : ∀ c ∈ h, ¬ c.isSearch) :
+    (runCalls (dropMemo st) h).2 = (runCalls st h).2 ∧
+    (runCalls (dropMemo st) h).1.s.nodes = (runCalls st h).1.s.nodes :=
+  answers_memo_dropped h st hi
 
 /-! ### non-vacuity: a ← ¬b, b ← ¬a (two statements), non-trivial histories
 
@@ -408,13 +451,29 @@ example : Agree (.ng .minPathsMaxVarImp 1000 false)
     (runCall (freshAdf exFms) (.ng .minPathsMaxVarImp 1000 false)).2 :=
   answers_history_independent _ exInv exHist _ (fun _ => fresh_supp exFms exFms_ok.1 exFms_ok.2)
 
-/-- … and the memo-dropped copy answers a search-free history identically -/
-example : (runCalls (dropMemo (freshAdf exFms)) [.complete, .ops [.xor 2 3, .not 4], .stablePre, .grounded]).2 =
-    (runCalls (freshAdf exFms) [.complete, .ops [.xor 2 3, .not 4], .stablePre, .grounded]).2 :=
-  (answers_memo_dropped_partial _ _ exInv (by
-    intro c hc
-    simp only [List.mem_cons, List.mem_nil_iff, or_false] at hc
-    rcases hc with h | h | h | h <;> subst h <;> exact fun x => x)).1
+/-- a history with both counting searches and the nogood search in both modes (built-in and
+scripted custom heuristic) -/
+def exHistS : List Call :=
+  [.complete, .count true, .ng .minPathsMaxVarImp 1000 true, .ops [.xor 2 3, .not 4], .count false,
+   .ng (.script 7) 1000 false, .stablePre, .grounded, .ng .simple 3 true]
+
+/-- … the memo-dropped copy answers the history WITH the searches identically, order included … -/
+example : (runCalls (dropMemo (freshAdf exFms)) exHistS).2 = (runCalls (freshAdf exFms) exHistS).2 :=
+  (answers_memo_dropped exHistS _ exInv).1
+
+/-- … also when the tables are dropped, or the object exported and re-imported, in the middle … -/
+example : (runCalls (dropMemo (runCalls (freshAdf exFms) exHist).1) exHistS).2 =
+    (runCalls (runCalls (freshAdf exFms) exHist).1 exHistS).2 :=
+  (answers_memo_dropped_midway _ exInv exHist exHistS).1
+
+example : (runCalls (reimport (runCalls (freshAdf exFms) exHist).1) exHistS).2 =
+    (runCalls (runCalls (freshAdf exFms) exHist).1 exHistS).2 :=
+  (answers_reimport_midway _ exInv exHist exHistS).1
+
+/-- … and `MemoEq` is satisfiable with genuinely different memo contents: the object after a
+history against its memo-dropped copy -/
+example : MemoEq (runCalls (freshAdf exFms) exHist).1 (dropMemo (runCalls (freshAdf exFms) exHist).1) :=
+  memoEq_drop _ (history_invariant _ exInv exHist).1
 
 -- by evaluation: the history is not trivial (it allocates nodes, issues handles, answers differ in kind)
 #guard (runCalls (freshAdf exFms) exHist).1.s.nodes.size > (freshAdf exFms).s.nodes.size
@@ -423,6 +482,16 @@ example : (runCalls (dropMemo (freshAdf exFms)) [.complete, .ops [.xor 2 3, .not
 #guard (runCall (freshAdf exFms) .stable).2 == .vecs [[0, 1], [1, 0]]
 #guard (match answerAfter (freshAdf exFms) exHist (.ng .minPathsMaxVarImp 1000 false) with
         | .ng vs _ => vs.length == 2 | _ => false)
+-- the search history: both searches emit two vectors, the bounded run hits its bound, the memo tables
+-- of the used object are not empty, and the answers agree with the memo-dropped copy (by evaluation)
+#guard (runCalls (freshAdf exFms) exHistS).2.length == 9
+#guard (runCalls (freshAdf exFms) exHistS).2[1]? == some (.vecs [[0, 1], [1, 0]])
+#guard (match (runCalls (freshAdf exFms) exHistS).2[2]? with | some (Answer.ng vs tr) => vs.length == 2 && tr.length ≥ 1 | _ => false)
+#guard (match (runCalls (freshAdf exFms) exHistS).2[5]? with | some (Answer.ng vs _) => vs.length == 2 | _ => false)
+#guard (runCalls (freshAdf exFms) exHistS).2[8]? == some .fuelExhausted
+#guard (runCalls (freshAdf exFms) exHist).1.s.resC.size > 0
+#guard (dropMemo (runCalls (freshAdf exFms) exHist).1).s.resC.size == 0
+#guard (runCalls (dropMemo (runCalls (freshAdf exFms) exHist).1) exHistS).2 == (runCalls (runCalls (freshAdf exFms) exHist).1 exHistS).2
 
 end C11
 
@@ -431,5 +500,11 @@ end C11
 #print axioms C11.answers_history_independent
 #print axioms C11.ng_halts_after_history
 #print axioms C11.answers_exact_after_history_from_formulas
+#print axioms C11.answers_memo_independent_call
+#print axioms C11.answers_memo_independent
+#print axioms C11.answers_depend_on_node_table
+#print axioms C11.answers_memo_dropped
+#print axioms C11.answers_memo_dropped_midway
+#print axioms C11.answers_reimport_midway
 #print axioms C11.answers_memo_independent_partial
 #print axioms C11.answers_memo_dropped_partial
